@@ -30,7 +30,21 @@ FUNCTIONS = {
     "npClose": ("src/sedpack/io/shard/shard_writer_np.py", "ShardWriterNP.close"),
     "checkListInfo": ("src/sedpack/io/dataset_writing.py", "DatasetWriting._check_shard_list_info"),
     "datasetCheck": ("src/sedpack/io/dataset_writing.py", "DatasetWriting.check"),
+    # (added with the ninth seed batch; for these, `try` / `except` / `endtry` and `if` / `endif` marks are emitted as well)
+    "poolExit": ("src/sedpack/io/itertools/lazy_pool.py", "LazyPool.__exit__"),
+    "poolReset": ("src/sedpack/io/itertools/lazy_pool.py", "LazyPool.finish_and_reset"),
+    "shuffleBuffer": ("src/sedpack/io/itertools/itertools.py", "shuffle_buffer"),
+    "shuffleBufferAsync": ("src/sedpack/io/itertools/itertools.py", "shuffle_buffer_async"),
+    "roundRobin": ("src/sedpack/io/itertools/itertools.py", "round_robin"),
+    "roundRobinAsync": ("src/sedpack/io/itertools/itertools.py", "round_robin_async"),
+    "getHashFunction": ("src/sedpack/io/utils.py", "_get_hash_function"),
+    "hashChecksums": ("src/sedpack/io/utils.py", "hash_checksums"),
+    "datasetBaseInit": ("src/sedpack/io/dataset_base.py", "DatasetBase.__init__"),
+    "fillerCtxInit": ("src/sedpack/io/dataset_filler.py", "_DatasetFillerContext.__init__"),
+    "getNewShard": ("src/sedpack/io/dataset_filler.py", "_DatasetFillerContext._get_new_shard"),
 }
+MARKED = {"poolExit", "poolReset", "shuffleBuffer", "shuffleBufferAsync", "roundRobin", "roundRobinAsync", "getHashFunction", "hashChecksums",
+          "datasetBaseInit", "fillerCtxInit", "getNewShard"}
 
 
 def _find(tree: ast.Module, qual: str):
@@ -60,8 +74,48 @@ def _last(expr: ast.AST) -> str:
 class _Events(ast.NodeVisitor):
     """Evaluation order: arguments before the call, the value before the assignment target."""
 
-    def __init__(self):
+    def __init__(self, marks: bool = False):
         self.ev: list[str] = []
+        self.marks = marks
+
+    def visit_Try(self, node: ast.Try):
+        if not self.marks:
+            return self.generic_visit(node)
+        self.ev.append("try")
+        for st in node.body: self.visit(st)
+        for h in node.handlers:
+            self.ev.append("except")
+            for st in h.body: self.visit(st)
+        for st in node.orelse: self.visit(st)
+        if node.finalbody:
+            self.ev.append("finally")
+            for st in node.finalbody: self.visit(st)
+        self.ev.append("endtry")
+
+    def visit_If(self, node: ast.If):
+        if not self.marks:
+            return self.generic_visit(node)
+        self.visit(node.test)
+        self.ev.append("if")
+        for st in node.body: self.visit(st)
+        if node.orelse:
+            self.ev.append("else")
+            for st in node.orelse: self.visit(st)
+        self.ev.append("endif")
+
+    def visit_YieldFrom(self, node: ast.YieldFrom):
+        self.visit(node.value)
+        if self.marks:
+            self.ev.append("yieldfrom")
+
+    def visit_Global(self, node: ast.Global):
+        self.ev.append("global")
+
+    def visit_Yield(self, node: ast.Yield):
+        if node.value is not None:
+            self.visit(node.value)
+        if self.marks:
+            self.ev.append("yield")
 
     def visit_Call(self, node: ast.Call):
         if isinstance(node.func, ast.Attribute):
@@ -125,7 +179,7 @@ def events(tag: str) -> list[str]:
     node = _find(ast.parse(p.read_text()), qual)
     if node is None:
         return ["<missing function>"]
-    v = _Events()
+    v = _Events(marks=tag in MARKED)
     for st in node.body:
         v.visit(st)
     return v.ev
@@ -133,17 +187,31 @@ def events(tag: str) -> list[str]:
 
 def gen_src(dest: Path | None = None) -> bool:
     defs = []
+    kinds = {"cmp": set(), "store": set()}
     for tag, (file, qual) in FUNCTIONS.items():
         ev = events(tag)
+        kinds["cmp"] |= {e for e in ev if e.startswith("cmp:")}
+        kinds["store"] |= {e for e in ev if e.startswith(("set:", "aug:"))}
         defs.append(f"/-- `{qual}` ({file}) -/\ndef {tag} : List String := [{', '.join(_lean_str(e) for e in ev)}]")
     text = '''/-!
 GENERATED by harness/extract_order.py — do not edit.
 For each writer-side function, its body flattened in evaluation order into events: the last attribute of every callee,
-`set:<attr>` / `aug:<attr>` for (augmented) assignments to attributes or subscripts, `cmp:<ops>` for comparisons, `raise`, `return`.
+`set:<attr>` / `aug:<attr>` for (augmented) assignments to attributes or subscripts, `cmp:<ops>` for comparisons, `raise`, `return`;
+for the functions added later also `try` / `except` / `finally` / `endtry`, `if` / `else` / `endif`, `yield` / `yieldfrom`, `global`.
 -/
 namespace Sedpack.Src
 
 ''' + "\n\n".join(defs) + '''
+
+/-- every comparison / store event that occurs in any of the lists above (the kind of an event is decided here, by the extractor:
+string operations do not reduce in the kernel) -/
+def cmpEvents : List String := [CMPS]
+def storeEvents : List String := [STORES]
+/-- does the function compare anything / store into an attribute or subscript? -/
+def hasCmp (l : List String) : Bool := l.any (fun e => cmpEvents.contains e)
+def hasStore (l : List String) : Bool := l.any (fun e => storeEvents.contains e)
+/-- how often an event occurs -/
+def occurrences (l : List String) (a : String) : Nat := (l.filter (· == a)).length
 
 /-- position of the first / last occurrence of an event -/
 def first (l : List String) (a : String) : Option Nat := let i := l.idxOf a; if i < l.length then some i else none
@@ -163,6 +231,7 @@ def noneBefore (l : List String) (b a : String) : Bool :=
 
 end Sedpack.Src
 '''
+    text = text.replace("CMPS", ", ".join(_lean_str(e) for e in sorted(kinds["cmp"]))).replace("STORES", ", ".join(_lean_str(e) for e in sorted(kinds["store"])))
     return write_if_changed((dest or (LEAN / "SedpackProps")) / "SrcGen.lean", text)
 
 
